@@ -5,7 +5,7 @@ import z3
 from symx import core, stubs
 from symx.core import is_sym, ssum, toz
 from symx.stubs import facade
-from harness.common import Shape, curated_shapes, build_mdp, sym_rewards, implicit_absorbing, bellman_optimal, policy_value
+from harness.common import Shape, curated_shapes, generated_shapes, build_mdp, sym_rewards, implicit_absorbing, bellman_optimal, policy_value
 
 PROPERTY = 'C16'
 FUNCTIONS = ['msdm.algorithms.multichainpolicyiteration.MultichainPolicyIteration.plan_on',
@@ -37,10 +37,12 @@ def shapes():
 
 UND = shapes()
 DISC = curated_shapes()
+NCUR = len(DISC)
+DISC = DISC + [g for g in generated_shapes(60, smax=3, amax=3) if all(len(av) > 0 for av in g.avail)]      # thorough tier only
 
 
 def bounds(tier):
-    return dict(undiscounted=[s.name for s in UND], discounted=[s.name for s in DISC], gammas=['1/2', '9/10', '1'], iteration_caps=['2', '3', '|A|^S+3'])
+    return dict(undiscounted=[s.name for s in UND], discounted=[s.name for s in DISC[:NCUR]] + ([f'{len(DISC) - NCUR} generated skeletons'] if tier != 'quick' else []), gammas=['1/2', '9/10', '1'], iteration_caps=['2', '3', '|A|^S+3'])
 
 
 def _run(sx, sh, rew, cap, warm=False):
@@ -154,7 +156,11 @@ def jobs(tier):
     for i, sh in enumerate(UND):
         yield ('undiscounted', dict(shape=i, warm=True), dict(o, cost=5))
         yield ('discounted', dict(shape=i, gamma='9/10', und=True, warm=True), dict(o, cost=5))
-    for i, sh in enumerate(DISC):
+    if tier != 'quick':
+        for i in range(NCUR, len(DISC)):
+            yield ('discounted', dict(shape=i, gamma='9/10'), dict(o, cost=5))
+            yield ('discounted', dict(shape=i, gamma='999/1000'), dict(o, cost=5))
+    for i, sh in enumerate(DISC[:NCUR]):
         if tier == 'quick' and sh.name == 'full3':
             continue
         for g in ['1/2', '9/10']:
